@@ -1,7 +1,211 @@
-(* Props/C20.v — placeholder while the harness is being brought up *)
-From Coq Require Import List Bool String.
+(* Props/C20.v — property C20: upgrading a 1.0 dataset to 1.1 preserves all of its content.
+   Only statements, each closed by a lemma of Proofs/PUpgrade.v.  The model (Model/MUpgrade.v) is
+   instantiated with the file names, extensions, version line and column lines that
+   harness/tables/upgrade.py read from the repository under test on this run (Gen/Tupgrade.v).
+
+   Vocabulary
+     tree                 a dataset directory: files outside the feature folders, the four feature folders, records_data
+     upgrade_inplace a t  kapture.utils.upgrade.upgrade_1_0_to_1_1_inplace with the type / metric names a
+     upgrade_copy a s t   tools/kapture_upgrade_1_0_to_1_1.upgrade_1_0_to_1_1 with image transfer strategy s
+     load11 t             what kapture_from_dir reads from t (None: it raises)
+     load10 a t           the content of the 1.0 directory t, labelled with the names a asks for
+                          (text tables as their data rows; feature sets = descriptor fields + (image, data file) for the
+                          recorded images; matches; observations merged per point) — "relabel (load10 t)" of the design
+     tidy10 a t           side conditions under which a 1.0 directory is in the domain: version lines are 1.0 or absent,
+                          a version line is a comment line, names are clean fields (no comma / line break / outer blank),
+                          type names contain no slash, recorded image names end in a proper base name, no file sits where
+                          a 1.1 descriptor would be looked for.  Decidable: tidy10_b.
+     tidy10_strict a t    what the copy route insists on in addition: every version line present (except points3d.txt). *)
+From Coq Require Import List Bool String ZArith.
+From KV Require Import Eqb Str AL.
+From KV.Gen Require Import Tupgrade.
 From KV.Model Require Import MUpgrade.
 From KV.Proofs Require Import PUpgrade.
 Import ListNotations.
-Theorem C20_placeholder : True. Proof. exact I. Qed.
-Print Assumptions C20_placeholder.
+Local Open Scope string_scope.
+Local Open Scope list_scope.
+
+(* --- 1. in place: the call succeeds and the upgraded directory loads, as version 1.1, to exactly the content of the
+        1.0 directory: same rows in every text table, same feature sets with the same data files filed under their type
+        name, same matches under the keypoints type, same observations labelled with the keypoints type.
+        Frame: records_data is not touched; files that are not text tables of the dataset are not touched; a feature
+        folder is either left alone or rewritten by [in_folder]; the text tables keep their lines under a new version line. *)
+Theorem C20_inplace_preserves : forall a t v,
+  tidy10 a t -> load10 a t = Some v ->
+  exists st, upgrade_inplace a t = Done st /\ load11 (fst st) = Some v /\
+    t_rd (fst st) = t_rd t /\
+    (forall n, memb n csv_1_0 = false -> n <> obs_file -> lookup n (t_top (fst st)) = lookup n (t_top t)) /\
+    (forall k, folder_shape k (get_folder k t) (get_folder k (fst st))) /\
+    mt_shape (t_mt t) (t_mt (fst st)) /\
+    (forall n, memb n csv_1_0 = true -> lookup n (t_top (fst st)) = rewritten csv_1_0 (t_top t) n).
+Proof. exact inplace_preserves. Qed.
+Print Assumptions C20_inplace_preserves.
+
+(* --- 2. copy route, whatever the image transfer strategy *)
+Theorem C20_copy_preserves : forall a s t v,
+  tidy10 a t -> tidy10_strict a t -> load10 a t = Some v ->
+  exists r, upgrade_copy a s t = CDone r /\ load11 (c_out r) = Some v.
+Proof. exact copy_preserves. Qed.
+Print Assumptions C20_copy_preserves.
+
+(* --- 3. both routes give the same result *)
+Theorem C20_routes_agree : forall a s t v,
+  tidy10 a t -> tidy10_strict a t -> load10 a t = Some v ->
+  exists st r, upgrade_inplace a t = Done st /\ upgrade_copy a s t = CDone r /\
+               load11 (fst st) = Some v /\ load11 (c_out r) = Some v.
+Proof. exact routes_agree. Qed.
+Print Assumptions C20_routes_agree.
+
+(* file by file: what the copy route writes into a feature folder is in the folder rewritten in place, same bytes *)
+Theorem C20_copy_within_inplace : forall k ty row F q c,
+  lookup q (cp_folder k ty row F) = Some c -> lookup q (in_folder k ty row F) = Some c.
+Proof. exact copy_within_inplace. Qed.
+Print Assumptions C20_copy_within_inplace.
+
+(* --- 4. data files: identical content, now filed under the type name (for every folder content, every name) *)
+Theorem C20_data_files_moved : forall k ty row F x,
+  has_ext (fext k) x = true ->
+  lookup (under ty x) (in_folder k ty row F) = lookup x F /\
+  lookup (under ty x) (cp_folder k ty row F) = lookup x F.
+Proof. intros. split; [apply lookup_in_folder_data | apply lookup_cp_folder_data]; assumption. Qed.
+Print Assumptions C20_data_files_moved.
+
+(* in place, every other file of the folder stays where it is (the old descriptor and the side json excepted) *)
+Theorem C20_other_files_stay : forall k ty row F x,
+  has_ext (fext k) x = false -> x <> descname k -> x <> under ty (descname k) ->
+  (forall j, fjson k = Some j -> x <> j /\ x <> under ty j) ->
+  lookup x (in_folder k ty row F) = lookup x F.
+Proof. exact lookup_in_folder_other. Qed.
+Print Assumptions C20_other_files_stay.
+
+(* --- 5. every file the routes write declares the current version *)
+Theorem C20_declares_version :
+  (forall segs, version_of_file (rewrite_header segs) = Some version_11) /\
+  (forall k row, match desc11 k row with Txt segs => version_of_file segs | Bin _ => None end = Some version_11) /\
+  (forall ty m, match obs_file11 ty m with Txt segs => version_of_file segs | Bin _ => None end = Some version_11).
+Proof. split; [exact version_rewrite_header | split; [exact declares_11_descriptor | exact version_obs_file11]]. Qed.
+Print Assumptions C20_declares_version.
+
+(* --- 6. guard: a directory whose text tables carry another version is refused before anything is written;
+        in particular a second run on an upgraded directory is refused and leaves it as it is *)
+Theorem C20_other_version_refused : forall a t ssegs,
+  all_other_version (t_top t) -> lookup sensors_file (t_top t) = Some (Txt ssegs) ->
+  upgrade_inplace a t = Failed Refused (t, a_kt a).
+Proof. exact inplace_refuses_other_version. Qed.
+Print Assumptions C20_other_version_refused.
+
+Theorem C20_copy_other_version_refused : forall a s t ssegs,
+  lookup sensors_file (t_top t) = Some (Txt ssegs) -> version_ok_strict (version_of_file ssegs) = false ->
+  upgrade_copy a s t = CFailed Refused.
+Proof. exact copy_refuses_other_version. Qed.
+Print Assumptions C20_copy_other_version_refused.
+
+Theorem C20_second_run_refused : forall a a' t v st,
+  tidy10 a t -> load10 a t = Some v -> upgrade_inplace a t = Done st ->
+  upgrade_inplace a' (fst st) = Failed Refused (fst st, a_kt a').
+Proof. exact second_run_refused. Qed.
+Print Assumptions C20_second_run_refused.
+
+(* --- 7. the loop of the in-place route: moving the files one after the other, longest path first (the repaired order),
+        gives the parallel rename used by the model, for every folder content — also when an image folder is named like
+        the feature type *)
+Theorem C20_longest_first_is_rename : forall ty e F L,
+  NoDup L -> (forall q, In q L <-> In q (keys F) /\ has_ext e q = true) -> longest_first L ->
+  forall k, lookup k (move_in_order ty L F) = lookup k (rename_feat ty e F).
+Proof. exact longest_first_is_rename. Qed.
+Print Assumptions C20_longest_first_is_rename.
+
+(* the parallel rename loses nothing and overwrites nothing *)
+Theorem C20_rename_lossless : forall ty e F p,
+  lookup (if has_ext e p then under ty p else p) (rename_feat ty e F) = lookup p F.
+Proof. exact lookup_rename_feat. Qed.
+Print Assumptions C20_rename_lossless.
+
+(* --- the hypotheses are decidable *)
+Theorem C20_tidy_decidable : forall a t,
+  (tidy10_b a t = true -> tidy10 a t) /\ (tidy10_strict_b a t = true -> tidy10_strict a t).
+Proof. intros. split; [apply tidy10_b_sound | apply tidy10_strict_b_sound]. Qed.
+Print Assumptions C20_tidy_decidable.
+
+(* ------------------------------------------------------------------ non-vacuity: a 1.0 directory with every part *)
+Definition H10 := "# kapture format: 1.0".
+Definition ex_tree : tree :=
+  mkTree
+    [("sensors/sensors.txt", Txt [H10; "# sensor_id, name, sensor_type, [sensor_params]+"; "cam0, cam, camera, SIMPLE_PINHOLE, 640, 480, 500, 320, 240"; ""]);
+     ("sensors/records_camera.txt", Txt [H10; "0, cam0, cam0/0001.jpg"; "1, cam0,  SIFT/x.png "; ""]);
+     ("reconstruction/points3d.txt", Txt ["# X, Y, Z"; "1.0,2.0,3.0"; "0.5,0.0,-1.0"; ""]);
+     ("reconstruction/observations.txt", Txt [H10; "1, cam0/0001.jpg, 3, SIFT/x.png, 4"; "0, SIFT/x.png, 007"; "5"; "1, SIFT/x.png, 9"; ""]);
+     ("notes.md", Bin "mine")]
+    (Some [("keypoints.txt", Txt [H10; "# name, dtype, dsize"; "SIFT, np.float32, 4"; ""]);
+           ("cam0/0001.jpg.kpt", Bin "K1"); ("SIFT/x.png.kpt", Bin "K2"); ("extract_local_features.json", Bin "{}")])
+    (Some [("descriptors.txt", Txt [H10; "HardNet, uint8, 0128"; ""]);
+           ("cam0/0001.jpg.desc", Bin "D1"); ("SIFT/x.png.desc", Bin "D2")])
+    (Some [("global_features.txt", Txt [H10; "APGEM, float32, 2048"; ""]); ("cam0/0001.jpg.gfeat", Bin "G1")])
+    (Some [("cam0/0001.jpg.overlapping/SIFT/x.png.matches", Bin "M12"); ("run_matching.json", Bin "{}")])
+    (Some [("cam0/0001.jpg", Bin "I1"); ("SIFT/x.png", Bin "I2")]).
+Definition ex_args : args := mkArgs None None None "L2" "cosine".
+
+Example C20_example :
+  tidy10 ex_args ex_tree /\ tidy10_strict ex_args ex_tree /\
+  exists v, load10 ex_args ex_tree = Some v /\
+    v_kp v = [("SIFT", ["SIFT"; "float32"; "4"], [("cam0/0001.jpg", Bin "K1"); ("SIFT/x.png", Bin "K2")])] /\
+    v_ds v = [("HardNet", ["HardNet"; "uint8"; "128"; "SIFT"; "L2"], [("cam0/0001.jpg", Bin "D1"); ("SIFT/x.png", Bin "D2")])] /\
+    v_gf v = [("APGEM", ["APGEM"; "float32"; "2048"; "cosine"], [("cam0/0001.jpg", Bin "G1")])] /\
+    v_mt v = [("SIFT", "cam0/0001.jpg", "SIFT/x.png", Bin "M12")] /\
+    v_obs v = [(0%Z, "SIFT", [("SIFT/x.png", 7%Z)]); (1%Z, "SIFT", [("cam0/0001.jpg", 3%Z); ("SIFT/x.png", 4%Z); ("SIFT/x.png", 9%Z)])].
+Proof.
+  split; [apply tidy10_b_sound; vm_compute; reflexivity|].
+  split; [apply tidy10_strict_b_sound; vm_compute; reflexivity|].
+  eexists. split; [vm_compute; reflexivity|]. repeat split.
+Qed.
+
+(* ------------------------------------------------------------------ the behaviour before the repairs is refuted *)
+(* (a) fixes/C20-global-features-without-keypoints.patch: both routes asserted a keypoints type in the
+       global-features branch; a dataset with global features and no keypoints was refused *)
+Definition gf_only : tree :=
+  mkTree
+    [("sensors/sensors.txt", Txt [H10; "cam0, cam, camera, SIMPLE_PINHOLE, 640, 480, 500, 320, 240"; ""]);
+     ("sensors/records_camera.txt", Txt [H10; "0, cam0, a.jpg"; ""])]
+    None None
+    (Some [("global_features.txt", Txt [H10; "APGEM, float32, 8"; ""]); ("a.jpg.gfeat", Bin "G1")])
+    None None.
+
+Lemma C20_legacy_refuted :
+  tidy10 ex_args gf_only /\ tidy10_strict ex_args gf_only /\
+  (exists v, load10 ex_args gf_only = Some v /\ v_gf v = [("APGEM", ["APGEM"; "float32"; "8"; "cosine"], [("a.jpg", Bin "G1")])]) /\
+  (exists st, upgrade_inplace_legacy ex_args gf_only = Failed Refused st) /\
+  upgrade_copy_legacy ex_args Copy gf_only = CFailed Refused.
+Proof.
+  split; [apply tidy10_b_sound; vm_compute; reflexivity|].
+  split; [apply tidy10_strict_b_sound; vm_compute; reflexivity|].
+  split; [eexists; split; vm_compute; reflexivity|].
+  split; [eexists|]; vm_compute; reflexivity.
+Qed.
+
+(* (b) fixes/C20-inplace-move-longest-paths-first.patch: with an image folder named like the keypoints type, the loop
+       moved T/x.jpg.kpt onto T/T/x.jpg.kpt before moving the latter: one image lost its keypoints, the other got the
+       wrong ones.  (Listing order: a folder before its sub-folders, as os.walk gives it.) *)
+Definition clash : tree :=
+  mkTree
+    [("sensors/sensors.txt", Txt [H10; "cam0, cam, camera, SIMPLE_PINHOLE, 640, 480, 500, 320, 240"; ""]);
+     ("sensors/records_camera.txt", Txt [H10; "0, cam0, T/x.jpg"; "1, cam0, T/T/x.jpg"; ""])]
+    (Some [("keypoints.txt", Txt [H10; "T, float32, 4"; ""]); ("T/x.jpg.kpt", Bin "KP of T/x.jpg"); ("T/T/x.jpg.kpt", Bin "KP of T/T/x.jpg")])
+    None None None None.
+
+Lemma C20_legacy_order_refuted :
+  tidy10 ex_args clash /\
+  (exists v, load10 ex_args clash = Some v /\
+             v_kp v = [("T", ["T"; "float32"; "4"], [("T/x.jpg", Bin "KP of T/x.jpg"); ("T/T/x.jpg", Bin "KP of T/T/x.jpg")])]) /\
+  (exists st v', upgrade_inplace_legacy ex_args clash = Done st /\ load11 (fst st) = Some v' /\
+                 v_kp v' = [("T", ["T"; "float32"; "4"], [("T/T/x.jpg", Bin "KP of T/x.jpg")])]).
+Proof.
+  split; [apply tidy10_b_sound; vm_compute; reflexivity|].
+  split; [eexists; split; vm_compute; reflexivity|].
+  eexists. eexists. split; [vm_compute; reflexivity|]. split; vm_compute; reflexivity.
+Qed.
+
+(* (c) fixes/C20-copy-route-without-records-data.patch: root_link on a dataset without sensors/records_data raised *)
+Lemma C20_legacy_root_link_refuted :
+  upgrade_copy_legacy ex_args RootLink gf_only = CFailed Refused /\
+  exists r, upgrade_copy ex_args RootLink gf_only = CDone r /\ c_rd r = RNone.
+Proof. split; [vm_compute; reflexivity|]. eexists. split; vm_compute; reflexivity. Qed.
